@@ -374,6 +374,10 @@ def build_tree(node, ctx, shared=None):
             )
         elif k == "wave":
             obj = tdgl.Parameter(wave_field, time_dependent=True, a=node["a"], kx=node["kx"], ky=node["ky"], w=node["w"])
+        elif k == "wave_xi":
+            # amplitude and wave vector stated in units of xi: the same physical field in every unit system
+            xi = ctx["xi"]
+            obj = tdgl.Parameter(wave_field, time_dependent=True, a=0.2 * node["B"] * xi, kx=node["kx"] / xi, ky=node["ky"] / xi, w=node["w"])
         elif k == "scalar2d":
             obj = tdgl.Parameter(scalar2d, a=node["a"], b=node["b"])
         elif k == "column2d":
@@ -440,6 +444,9 @@ def eval_tree(node, ctx, x, y, z, t):
             )
         if k == "wave":
             return wave_field(x, y, z, t=t, a=node["a"], kx=node["kx"], ky=node["ky"], w=node["w"])
+        if k == "wave_xi":
+            xi = ctx["xi"]
+            return wave_field(x, y, z, t=t, a=0.2 * node["B"] * xi, kx=node["kx"] / xi, ky=node["ky"] / xi, w=node["w"])
         if k == "scalar2d":
             v = scalar2d(x, y, z, a=node["a"], b=node["b"])
             return v
@@ -461,7 +468,7 @@ def _col(v):
 
 def tree_time_dependent(node):
     if "leaf" in node:
-        return node["leaf"] in ("ramp", "pw", "sin", "wave")
+        return node["leaf"] in ("ramp", "pw", "sin", "wave", "wave_xi")
     return tree_time_dependent(node["l"]) or tree_time_dependent(node["r"])
 
 
@@ -486,6 +493,8 @@ def field_to_tree(field):
         tree = {"op": "*", "l": {"leaf": "sin", "omega": field["omega"], "phase": field.get("phase", 0.0), "offset": field.get("offset", 0.0)}, "r": {"leaf": "const_field", "B": field["B"]}}
     elif k == "loop":
         tree = {"leaf": "loop", "I": field["I"], "R": field["R"], "c": field["c"]}
+    elif k == "wave":
+        tree = {"leaf": "wave_xi", "B": field["B"], "kx": field["kx"], "ky": field["ky"], "w": field["w"]}
     elif k == "tree":
         tree = field["tree"]
     else:
